@@ -208,11 +208,12 @@ example : (((1.5 : Float) - (0.0 + 1.5)) == 0.0) = true := by decide +kernel
 example : ((((1.0 : Float) / 0.0) - (0.0 + (1.0 : Float) / 0.0)).isNaN) = true := by decide +kernel
 example : (decide (((0.0 : Float) / 0.0) < 0.0)) = false := by decide +kernel
 
-/-- the dispatch of lines 515-548 (which solver is reached), checked exhaustively. -/
-example : pickSolver false false false = .trsbox ∧ pickSolver false false true = .trsbox ∧
-    pickSolver false true false = .pgd ∧ pickSolver false true true = .zeroBadModel ∧
-    pickSolver true false false = .sfistaBox ∧ pickSolver true true false = .sfista ∧
-    pickSolver true false true = .zeroBadModel ∧ pickSolver true true true = .zeroBadModel := by decide
+/-- the dispatch of lines 513-548 (which solver is reached), checked exhaustively. -/
+example : pickSolver false false false false = .trsbox ∧ pickSolver false false true false = .trsbox ∧
+    pickSolver false true false false = .pgd ∧ pickSolver false true true false = .zeroBadModel ∧
+    pickSolver true false false false = .sfistaBox ∧ pickSolver true true false false = .sfista ∧
+    pickSolver true false true false = .zeroBadModel ∧ pickSolver true true true false = .zeroBadModel ∧
+    (∀ a b c, pickSolver a b c true = .linalgError) := by decide
 
 /-- non-vacuity of `zero_step_rule`: a negative, a positive and a NaN prediction. -/
 example : chooseStep (Val.num (-3)) "d" "0" = "0" ∧ chooseStep (Val.num 5) "d" "0" = "d" ∧
